@@ -253,4 +253,141 @@ Proof.
   intro x. exact I.
 Qed.
 
+
+(* ---------- general histories: stored weight vs specification weight ---------- *)
+(* every increment on a present key adds one rounding: after j increments in the history
+   a stored weight is within [(1-eps)^j, (1+eps)^j] of the specification's weight *)
+Definition wrel (j : nat) (a b : option Q) : Prop :=
+  match a, b with
+  | None, None => True
+  | Some wf, Some ws => 0 <= ws /\ qpow (1 - eps) j * ws <= wf /\ wf <= g eps j * ws
+  | _, _ => False
+  end.
+
+Definition count_upd (ops : list op) : nat :=
+  length (filter (fun o => match o with OpUpdate _ _ => true | _ => false end) ops).
+
+Lemma lowpow_01 : forall j, 0 <= qpow (1 - eps) j /\ qpow (1 - eps) j <= 1.
+Proof. intro j. apply qpow_01; lra. Qed.
+
+Lemma wrel_mono : forall j a b, wrel j a b -> wrel (S j) a b.
+Proof.
+  intros j [wf|] [ws|] H; cbn [wrel] in *; try exact H.
+  destruct H as [H0 [H1 H2]]. split; [exact H0|].
+  destruct (lowpow_01 j) as [La Lb]. pose proof (g_ge1 eps eps_nonneg j) as Hg.
+  cbn [qpow]. rewrite g_S. split.
+  - assert (Ha : (1 - eps) * (qpow (1 - eps) j * ws) <= 1 * (qpow (1 - eps) j * ws)).
+    { apply Qmult_le_compat_r; [lra|]. apply Qmult_le_0_compat; assumption. }
+    rewrite <- Qmult_assoc. lra.
+  - assert (Ha : 1 * (g eps j * ws) <= (1 + eps) * (g eps j * ws)).
+    { apply Qmult_le_compat_r; [lra|]. apply Qmult_le_0_compat; lra. }
+    rewrite <- Qmult_assoc. lra.
+Qed.
+
+Lemma wrel_exact : forall wf ws, 0 <= ws -> wf == ws -> wrel 0 (Some wf) (Some ws).
+Proof.
+  intros wf ws H0 E. cbn [wrel]. split; [exact H0|]. unfold g. cbn [qpow]. split; lra.
+Qed.
+
+Lemma wrel_le : forall j j' a b, (j <= j')%nat -> wrel j a b -> wrel j' a b.
+Proof.
+  intros j j' a b Hj H. induction Hj as [|j' Hj IH]; [exact H|]. apply wrel_mono. exact IH.
+Qed.
+
+Lemma wrel_none_r : forall j a, wrel j a None -> a = None.
+Proof. intros j [a|] H; [destruct H|reflexivity]. Qed.
+
+Lemma ldf_step_wrel : forall s o s' (m : wmap K) j,
+  ldf_inv K s -> weighted s = true -> op_ok K true o -> op_rep o ->
+  (forall x, wrel j (abs s x) (m x)) -> ldf_step s o = Ok s' ->
+  forall x, wrel (j + count_upd [o]) (abs s' x) (sp_step m o x).
+Proof.
+  intros s o s' m j Hinv Hw Hok Hrep Hm He x.
+  destruct (step_spec s o Hinv Hw Hok) as [[k [_ [_ E]]]|[s1 [E [Hi' [Hw' _]]]]]; [congruence|].
+  assert (s1 = s') by congruence. subst s1. clear E.
+  destruct o as [k q|k d|k|k]; cbn [op_ok op_rep] in *; cbn [ListDict.sp_step];
+    unfold count_upd; cbn [filter length]; rewrite ?Nat.add_0_r.
+  - destruct Hok as [_ Hq].
+    destruct (ldf_insert_stores s k q s' Hinv Hw Hq Hrep He) as [H0 [H1 Ho]].
+    unfold ListDict.sp_insert, ListDict.sp_remove, ListDict.fupd.
+    destruct (Keqb_spec x k) as [Ex|Ex].
+    + subst x. destruct (Qeqb q 0) eqn:Hq0; rewrite (Keqb_refl K Keqb Keqb_spec).
+      * rewrite (abs_notin s' k Hi' (H0 eq_refl)). exact I.
+      * destruct (H1 eq_refl) as [Hin Hwk]. rewrite (abs_in s' k Hi' Hw' Hin).
+        apply (wrel_le 0 j); [lia|]. apply wrel_exact; assumption.
+    + destruct (Ho x Ex) as [Hwr Hmm].
+      rewrite (abs_other s s' x Hinv Hi' Hw Hw' Hwr Hmm).
+      destruct (Qeqb q 0); rewrite (Keqb_neq K Keqb Keqb_spec x k Ex); apply Hm.
+  - destruct Hok as [_ Hd].
+    destruct (ldf_update_stores s k d s' Hinv Hw Hd He) as [Hin [Ek [_ [Hfresh Ho]]]].
+    unfold ListDict.sp_update, ListDict.fupd.
+    destruct (Keqb_spec x k) as [Ex|Ex].
+    + subst x. rewrite (abs_in s' k Hi' Hw' Hin). pose proof (Hm k) as Hk.
+      destruct (m k) as [ws|] eqn:Emk.
+      * (* present: one more rounding *)
+        destruct (in_items_dec s k Hinv) as [Hink|Hn];
+          [|rewrite (abs_notin s k Hinv Hn) in Hk; destruct Hk].
+        rewrite (abs_in s k Hinv Hw Hink) in Hk. cbn [wrel] in Hk. destruct Hk as [H0 [H1 H2]].
+        pose proof (fwread_nonneg K s k Hinv Hw) as Hw0.
+        destruct (lowpow_01 j) as [La Lb]. pose proof (g_ge1 eps eps_nonneg j) as Hg.
+        replace (j + 1)%nat with (S j) by lia. cbn [wrel]. split; [lra|].
+        rewrite Ek. unfold fadd. cbn [qpow]. rewrite g_S.
+        pose proof (rnd_ge rnd eps rnd_err (wread s k + d) ltac:(lra)) as R1.
+        pose proof (rnd_le rnd eps rnd_err (wread s k + d) ltac:(lra)) as R2.
+        split.
+        -- assert (A1 : qpow (1 - eps) j * d <= 1 * d) by (apply Qmult_le_compat_r; assumption).
+           assert (A2 : (1 - eps) * (qpow (1 - eps) j * (ws + d)) <= (1 - eps) * (wread s k + d))
+             by (apply Qmult_le_nonneg_l; lra).
+           rewrite <- Qmult_assoc. lra.
+        -- assert (A1 : 1 * d <= g eps j * d) by (apply Qmult_le_compat_r; assumption).
+           assert (A2 : (1 + eps) * (wread s k + d) <= (1 + eps) * (g eps j * (ws + d)))
+             by (apply Qmult_le_nonneg_l; lra).
+           rewrite <- Qmult_assoc. lra.
+      * (* the increment creates the key: stored exactly *)
+        apply (wrel_le 0 (j + 1)); [lia|]. apply wrel_exact; [exact Hd|].
+        apply Hfresh; [|exact Hrep].
+        apply (abs_none_notin s k Hinv Hw). apply (wrel_none_r j). exact Hk.
+    + destruct (Ho x Ex) as [Hwr Hmm].
+      rewrite (abs_other s s' x Hinv Hi' Hw Hw' Hwr Hmm).
+      apply (wrel_le j (j + 1)); [lia|]. apply Hm.
+  - destruct (ldf_remove_stores s k s' Hinv Hw He) as [Hn Ho].
+    unfold ListDict.sp_remove, ListDict.fupd.
+    destruct (Keqb_spec x k) as [Ex|Ex].
+    + subst x. rewrite (abs_notin s' k Hi' Hn). exact I.
+    + destruct (Ho x Ex) as [Hwr Hmm].
+      rewrite (abs_other s s' x Hinv Hi' Hw Hw' Hwr Hmm). apply Hm.
+  - discriminate Hok.
+Qed.
+
+Lemma ldf_run_wrel : forall ops s s' (m : wmap K) j,
+  ldf_inv K s -> weighted s = true ->
+  Forall (op_ok K true) ops -> Forall op_rep ops ->
+  (forall x, wrel j (abs s x) (m x)) -> ldf_run s ops = Ok s' ->
+  forall x, wrel (j + count_upd ops) (abs s' x) (fold_left sp_step ops m x).
+Proof.
+  induction ops as [|o ops IH]; intros s s' m j Hinv Hw Hok Hrep Hm He.
+  - cbn [ListDictF.ldf_run] in He. injection He as He. subst s'.
+    unfold count_upd. cbn [filter length]. rewrite Nat.add_0_r. exact Hm.
+  - cbn [ListDictF.ldf_run] in He. inversion Hok as [|o' ops' Ho Hops]; subst o' ops'.
+    inversion Hrep as [|o' ops' Hro Hrops]; subst o' ops'.
+    destruct (step_spec s o Hinv Hw Ho) as [[k [_ [_ E]]]|[s1 [E [Hi1 [Hw1 _]]]]];
+      rewrite E in He; cbn [rbind] in He; [discriminate He|].
+    cbn [fold_left].
+    assert (Ec : (j + count_upd (o :: ops))%nat = (j + count_upd [o] + count_upd ops)%nat).
+    { unfold count_upd. cbn [filter]. destruct o; cbn [length]; lia. }
+    rewrite Ec. apply (IH s1 s' (sp_step m o) (j + count_upd [o])%nat Hi1 Hw1 Hops Hrops); [|exact He].
+    apply (ldf_step_wrel s o s1 m j Hinv Hw Ho Hro Hm E).
+Qed.
+
+Theorem ldf_weights_relative : forall ops s,
+  Forall (op_ok K true) ops -> Forall op_rep ops ->
+  ldf_run (ld_empty true) ops = Ok s ->
+  forall x, wrel (count_upd ops) (abs s x) (fold_left sp_step ops (sp_empty K) x).
+Proof.
+  intros ops s Hok Hrep He.
+  apply (ldf_run_wrel ops (ld_empty true) s (sp_empty K) 0 (ldf_empty_inv K true)
+           eq_refl Hok Hrep); [|exact He].
+  intro x. exact I.
+Qed.
+
 End FP2.
